@@ -131,6 +131,48 @@ Theorem c11_stream_step f fs st :
   frame_ok f -> adts_decode st (stream_bytes (f :: fs)) = (frame_asc (fst f), Ok (snd f, stream_bytes fs)).
 Proof. intros (Hw & Ha & H1 & H2). exact (decode_spec_frame (fst f) (snd f) (stream_bytes fs) st Hw Ha H1 H2). Qed.
 
+(* HISTORIES ON ONE OBJECT.  The ADTS object's only state is its configuration (adts_step:
+   SetASC unmarshals into it -- the fields are assigned even when the config is then rejected --,
+   Decode overwrites it with the decoded frame's, the pointer returned by ASC() lets the caller
+   assign it, Encode only reads it); results are values and never change afterwards (the harness
+   keeps every returned frame and re-reads it after the last operation).
+   (a) After ANY sequence of operations, whatever bytes they were given, Encode returns
+       adts_encode of the configuration then in force and leaves it unchanged. *)
+Theorem c11_history_encode st ops raw :
+  adts_run st (ops ++ [OpEncode raw]) =
+  (fst (adts_run st ops), snd (adts_run st ops) ++ [OutEnc (adts_encode (fst (adts_run st ops)) raw)]).
+Proof. exact (adts_history_encode st ops raw). Qed.
+
+(* (b) For every history made of SetASC (>= 2 bytes, accepted or not; or too short), assignment
+       through ASC(), Decode of conformant ISO frames (frame_ok, any tail) and Encode (<= 8184
+       bytes), from any initial configuration: the configuration in force after each operation is
+       the one LAST ESTABLISHED -- by SetASC: the 5+4+4-bit fields; by Decode: the frame's
+       (profile+1, index, channels); by assignment: the assigned value -- (fold_left cop_cfg), and
+       each operation returns cop_out: in particular every Encode returns the ISO frame
+       spec_adts_frame (encoder_hdr cfg) raw of the configuration cfg in force AT ITS CALL when
+       that is an accepted configuration, and validate's error otherwise. *)
+Theorem c11_history cs st :
+  Forall cop_ok cs ->
+  adts_run st (map cop_op cs) = (fold_left cop_cfg cs st, cops_outs st cs).
+Proof. intros H. exact (adts_history cs H st). Qed.
+
+(* no operation of any history panics *)
+Theorem aac_adts_history_total ops st :
+  Forall (fun o => match o with
+                   | OutSet _ (Panic _) | OutEnc (Panic _) | OutDec _ (Panic _) => False
+                   | _ => True
+                   end) (snd (adts_run st ops)).
+Proof. exact (adts_run_total ops st). Qed.
+
+(* the stale-header shape: Encode under LC 44.1k stereo, Decode a Main 48k mono frame, Encode
+   again -- the second frame carries Main / 48k / mono *)
+Example c11_history_witness :
+  let f := spec_adts_frame (mk_hdr 1 0 1 0 3 0 1 0 0 0 0 2047 0 0) [7] in
+  snd (adts_run asc0 [OpSetASC [18; 16]; OpEncode [1]; OpDecode f; OpEncode [2]]) =
+  [ OutSet (mk_asc 2 4 2) (Ok tt); OutEnc (Ok [255; 241; 80; 128; 1; 0; 252; 1]);
+    OutDec (mk_asc 1 3 1) (Ok ([7], [])); OutEnc (Ok [255; 241; 12; 64; 1; 0; 252; 2]) ].
+Proof. vm_compute. reflexivity. Qed.
+
 (* AudioSpecificConfig, all 65536 two-byte configs b0 b1 (and any bytes after them, any
    receiver state): the fields are the 5+4+4 bits of the 16-bit value, the config is accepted
    exactly when those fields are an accepted configuration, and then MarshalBinary gives the
@@ -290,6 +332,10 @@ Print Assumptions c11_multi_block_crc_refuted.
 Print Assumptions c11_multi_block_nonvacuous.
 Print Assumptions c11_stream.
 Print Assumptions c11_stream_step.
+Print Assumptions c11_history_encode.
+Print Assumptions c11_history.
+Print Assumptions aac_adts_history_total.
+Print Assumptions c11_history_witness.
 Print Assumptions c11_asc_unmarshal.
 Print Assumptions c11_asc.
 Print Assumptions c11_asc_sweep.
